@@ -629,6 +629,23 @@ func launchInjector(cfg *Config, ctx context.Context, done chan result) {
 	r.term, r.err = cfg.Call(ctx)
 }
 
+// MainMulti drives one of several injectors of a package, selected by VERIF_DECL.
+func MainMulti(cfgs map[string]Config) {
+	d := os.Getenv("VERIF_DECL")
+	cfg, ok := cfgs[d]
+	if !ok {
+		if len(cfgs) == 1 {
+			for _, c := range cfgs {
+				Main(c)
+				return
+			}
+		}
+		fmt.Fprintf(os.Stderr, "rt: no injector configuration %q\n", d)
+		os.Exit(2)
+	}
+	Main(cfg)
+}
+
 // Main is the entry point of a generated driver.  Environment:
 //
 //	VERIF_OUT     ndjson trace file (append)
